@@ -2,6 +2,7 @@ import ZapVerif.Proofs.EntryWF
 import ZapVerif.Proofs.Unesc
 import ZapVerif.Proofs.Num
 import ZapVerif.Gen.EntryMeta
+import ZapVerif.Proofs.MapEnc
 /-! # C02 — JSON output decodes to exactly the logged values, in order, at the right nesting -/
 namespace ZapVerif.C02
 open ZapVerif ZapVerif.Esc ZapVerif.Json ZapVerif.Enc ZapVerif.Entry
@@ -78,6 +79,14 @@ theorem sanitize_invalid_once (fuel : Nat) (b : UInt8) (r : Bytes) (hb : b ≥ 1
 /-- integers over the full 64-bit range (indeed every Int / Nat): the decimal text decodes to the value -/
 theorem int_recoverable (i : Int) : intOf (fmtInt i) = i := intOf_fmtInt i
 theorem uint_recoverable (n : Nat) : natOf (fmtNat n) = n := natOf_fmtNat n
+
+/-- namespaces, objects, arrays, inlined and dict fields produce the nesting the in-memory map encoder records:
+    the map `MapObjectEncoder` builds from a call list (keys as emitted) is the last-wins map of the tree the JSON
+    encoder denotes for the same calls (`denTO` is `denO` with the leaves marked: `erase_denTO`).  The model of
+    memory_encoder.go (`MapEnc.mapFrom`, raw keys) is compared with the real MapObjectEncoder on every run. -/
+theorem map_agrees (calls : List OC) (acc : List (Bytes × MapEnc.MV)) :
+    MapEnc.mapFrom esc acc calls = MapEnc.toMapM acc (denTO calls) ∧ eraseM (denTO calls) = denO calls :=
+  ⟨MapEnc.mapFrom_eq calls acc, erase_denTO calls⟩
 
 /-- the guard structure of `jsonEncoder.EncodeEntry` that `metaCalls` / `stackCalls` / `encodeEntry` mirror: level
     (key ∧ encoder, no-op fall-back), time (key ∧ non-zero), name (name ∧ key, nil → full-name encoder, fall-back),
